@@ -21,10 +21,14 @@ TRUSTED = [
     "strace -f -e trace=openat sees every open for writing of the rustfmt process (when ptrace is permitted)",
 ]
 KNOWN_KEYS = [
-    "path_cycle_unnormalised_recursion", "formatted_twice_unnormalised_path", "skipped_file_overwritten_cfg_attr_path",
+    "path_cycle_unnormalised_recursion", "formatted_twice_unnormalised_path", "skipped_default_drops_cfg_attr_candidates",
     "unparsable_cfg_attr_candidate_swallowed", "root_with_sibling_dir", "inline_heuristic_formats_decoy",
     "reached_twice_incomplete", "nested_cfg_if_not_visited", "inline_cfg_attr_path_ignored",
 ]
+# shapes outside Tame that are not recorded findings: a deviation on them is a plain violation.
+# (repaired in /repo commit 0b20f11: a #![rustfmt::skip] file named by two cfg_attr(path) declarations was
+# overwritten with the declaring file's text; the shape stays in the dedicated stream and is judged normally)
+UNRECORDED_SHAPES = ["cfg_attr_skipped_candidate"]
 UP, MOD = 0, 1
 OLD = 946684800 * 10 ** 9       # mtime given to every file before the run (2000-01-01)
 
@@ -301,7 +305,11 @@ def gen_known(rnd):
     a, b, c, e = names(4)
     out.append(mk([(rt, 0), ([R(a)], 1), ([R(b)], 2), ([R(c)], 3)], [],
                   {0: [["decl", a, A(cfg=[[R(c)]])], ["other"], ["decl", b, A(cfg=[[R(c)]])]]}, {3: [True, False, False]}, rt,
-                  "skipped_file_overwritten_cfg_attr_path"))
+                  "repaired:skipped_file_overwritten_cfg_attr_path"))
+    a, b, c, e = names(4)
+    out.append(mk([(rt, 0), ([R(a)], 1), ([R(c)], 2), ([R(b)], 3)], [],
+                  {0: [["decl", a, A(cfg=[[R(c)]])], ["decl", b, A()]]}, {1: [True, False, False]}, rt,
+                  "skipped_default_drops_cfg_attr_candidates"))
     a, b, c, e = names(4)
     out.append(mk([(rt, 0), ([R(a)], 1), ([D(a), D(c), R(e)], 2)], [],
                   {0: [["decl", a, A()]], 1: [["inline", b, A(), [["inline", c, A(), [["decl", e, A()]]]]]]}, {}, rt,
@@ -573,7 +581,7 @@ class Lang:
                 if lk[0] == "dir" or self.asts[lk[1]] is None:
                     self.shapes.add("unparsable_cfg_attr_candidate_swallowed")
                 elif self.facts[lk[1]][0]:
-                    self.shapes.add("skipped_file_overwritten_cfg_attr_path")
+                    self.shapes.add("cfg_attr_skipped_candidate")
             self.enter(p, kx, depth, stack, n)
         r = self.default(ctx, n)
         if isinstance(r, tuple):
@@ -583,7 +591,7 @@ class Lang:
             if self.asts[lk[1]] is None:
                 self.errors.append(("ParseError", n))
             if existing and self.facts[lk[1]][0]:
-                self.shapes.add("skipped_file_overwritten_cfg_attr_path")
+                self.shapes.add("skipped_default_drops_cfg_attr_candidates")
         elif not existing:
             self.errors.append((r, n))
 
@@ -762,6 +770,9 @@ def judge(t, d, r):
     if dup:
         dev.append(("formatted_twice", "formatted more than once: %r (as %r)" % (dup, r["formatting"])))
     got = set(r["changed"])
+    over = sorted(p for p in got - exp if facts[L.fid[os.path.join(d, p)]][0])
+    if over:
+        dev.append(("skipped_file_overwritten_cfg_attr_path", "files starting with #![rustfmt::skip] were rewritten: %r (`Formatting` lines %r)" % (over, r["formatting"])))
     if got != exp or set(fm_real) != exp:
         dev.append(("formatted_set", "changed files %r, `Formatting` lines %r; reachable minus excluded is %r (missed %r, extra %r)" % (
             sorted(got), r["formatting"], sorted(exp), sorted(exp - got), sorted(got - exp))))
@@ -880,7 +891,7 @@ def run(tier, seed, replay):
                 tame = bool(closed and tame)
             if tame:
                 stats["tame"] += 1
-            if tame is not None and c["mode"] != "stdin" and not c["skip_children"] and tame != (not (shapes & (set(KNOWN_KEYS) - {"formatted_twice_unnormalised_path"}))):
+            if tame is not None and c["mode"] != "stdin" and not c["skip_children"] and tame != (not (shapes & (set(KNOWN_KEYS + UNRECORDED_SHAPES) - {"formatted_twice_unnormalised_path"}))):
                 stats["classifier_vs_run_tame_disagreements"] += 1
             if c["mode"] == "stdin":
                 agree = code == 0 and mpaths == [pstr(t["root"])] and not r["changed"] and r["rc"] == 0
@@ -900,7 +911,7 @@ def run(tier, seed, replay):
             known = [k for k in KNOWN_KEYS if k in shapes]
             if t["stream"] != "main" and t["stream"] in shapes:
                 known = [t["stream"]]
-            key = known[0] if known else kind
+            key = known[0] if known and kind != "skipped_file_overwritten_cfg_attr_path" else kind
             fired.setdefault(key, {"n": 0, "example": None})
             fired[key]["n"] += 1
             if fired[key]["example"] is None:
@@ -910,7 +921,7 @@ def run(tier, seed, replay):
                     "sources": {pstr(p): file_text(t, fi) for p, fi in t["files"]}}
             if rep.violation(key, robj, "%s: %s" % (kind, what)):
                 found += 1
-        elif t["stream"] != "main":
+        elif t["stream"] != "main" and not t["stream"].startswith("repaired:"):
             # a recorded shape that no longer deviates: worth knowing, not a violation
             fired.setdefault("no_longer:" + t["stream"], {"n": 0, "example": None})["n"] += 1
         shutil.rmtree(d, ignore_errors=True)
